@@ -1,6 +1,10 @@
 package main
 
-import "fmt"
+import (
+	"fmt"
+
+	"golang.org/x/tools/go/ssa"
+)
 
 // controls.go — positive controls: engine rules must fire on seeded violations.
 
@@ -114,4 +118,34 @@ func init() {
 		_ = hasLoop
 		return hasErr && hasX, "control dependence closure misses a guard: " + fmt.Sprint(terms)
 	}
+}
+
+func init() {
+	npCtl := func(bad, good string) controlFn {
+		return func(c *Ctx) (bool, string) {
+			fb, fg := c.Fn(bad), c.Fn(good)
+			if fb == nil || fg == nil {
+				return false, "control functions missing"
+			}
+			count := func(fn *ssa.Function) (fails, total int) {
+				r := NewReport("CTL")
+				r.Rule("NP", "", 0)
+				c.runNP(r, "NP", map[*ssa.Function]bool{fn: true}, nil)
+				for _, o := range r.Obs {
+					total++
+					if o.Status == Violated {
+						fails++
+					}
+				}
+				return
+			}
+			fbad, _ := count(fb)
+			fgood, tgood := count(fg)
+			return fbad > 0 && fgood == 0 && tgood > 0, fmt.Sprintf("NP verdicts wrong on controls: %s fails=%d, %s fails=%d of %d", bad, fbad, good, fgood, tgood)
+		}
+	}
+	controlTable["np-index"] = npCtl("NpIndexBad", "NpIndexGood")
+	controlTable["np-slice"] = npCtl("NpSliceBad", "NpSliceGood")
+	controlTable["np-nil"] = npCtl("NpNilBad", "NpNilGood")
+	controlTable["np-kind"] = npCtl("NpKindBad", "NpKindGood")
 }
